@@ -501,6 +501,25 @@ def gen_flow(rng, L, kind=None, avoid_kinks=True):
   return out
 
 
+def integral_flow(L, s):
+  """s with every slot moved to the nearest whole number inside the slot bounds (kept if there is none; 0 avoided for lossy
+  storage / thermal devices); returns (flow, all entries whole)."""
+  import math
+  out = []
+  for v, (lo, hi) in zip(s, L['bounds']):
+    cands = list(range(math.ceil(lo), math.floor(hi) + 1))
+    if kink_free(L):
+      cands = [k for k in cands if k != 0]
+    out.append(F(min(cands, key=lambda k: abs(k - v))) if cands else v)
+  return out, all(F(v).denominator == 1 for v in out)
+
+
+def np_flow(c, key='s'):
+  """The flow of a case as an ndarray: float64, or int64 when the case is flagged 'int' (whole numbers handed over as integers)."""
+  a = np.array(fl(c[key]))
+  return a.astype(int) if c.get('int') else a
+
+
 def gen_price(rng, n, kind=None):
   kind = kind or pick(rng, ['zero', 'scalar', 'vector', 'vector'])
   if kind == 'zero':
